@@ -1,6 +1,6 @@
 use proc_macro2::{Span, TokenStream};
 use quote::{format_ident, quote};
-use syn::{Data, DeriveInput, Fields, Type};
+use syn::{parse::Parser, punctuated::Punctuated, Data, DeriveInput, Fields, Meta, Token, Type};
 
 use crate::helpers::{non_enum_error, HasStrumVariantProperties, HasTypeProperties};
 
@@ -11,19 +11,28 @@ pub fn from_repr_inner(ast: &DeriveInput) -> syn::Result<TokenStream> {
     let vis = &ast.vis;
 
     let mut discriminant_type: Type = syn::parse("usize".parse().unwrap()).unwrap();
-    if let Some(type_path) = ast
+    // `#[repr(..)]` is a list of hints (e.g. `#[repr(C, u8)]`, `#[repr(align(8), i16)]`);
+    // the discriminant type is the integer type among them, wherever it stands.
+    if let Some(hints) = ast
         .get_type_properties()
         .ok()
         .and_then(|tp| tp.enum_repr)
-        .and_then(|repr_ts| syn::parse2::<Type>(repr_ts).ok())
+        .and_then(|repr_ts| {
+            Punctuated::<Meta, Token![,]>::parse_terminated
+                .parse2(repr_ts)
+                .ok()
+        })
     {
-        if let Type::Path(path) = type_path.clone() {
-            if let Some(seg) = path.path.segments.last() {
+        for hint in &hints {
+            if let Some(ident) = hint.path().get_ident() {
                 for t in &[
                     "u8", "u16", "u32", "u64", "usize", "i8", "i16", "i32", "i64", "isize",
                 ] {
-                    if seg.ident == t {
-                        discriminant_type = type_path;
+                    if ident == t {
+                        discriminant_type = Type::Path(syn::TypePath {
+                            qself: None,
+                            path: hint.path().clone(),
+                        });
                         break;
                     }
                 }
